@@ -72,12 +72,25 @@ func (pr *printer) nodes(ns []*Node, depth int) {
 	}
 }
 
+// quoteAttr spells a constant attribute value in the given quote kind. The
+// quote characters are written as character references; which spelling
+// (named, decimal, hexadecimal) varies with the value so that all occur.
 func quoteAttr(val string, q byte) string {
+	dq := []string{"&quot;", "&#34;", "&#x22;"}[len(val)%3]
+	sq := []string{"&#39;", "&apos;", "&#x27;"}[len(val)%3]
 	switch q {
 	case '"':
-		return `"` + strings.NewReplacer("&", "&amp;", `"`, "&quot;", "<", "&lt;").Replace(val) + `"`
+		r := strings.NewReplacer("&", "&amp;", `"`, dq, "<", "&lt;")
+		if len(val)%2 == 1 {
+			r = strings.NewReplacer("&", "&amp;", `"`, dq, "<", "&lt;", "'", sq)
+		}
+		return `"` + r.Replace(val) + `"`
 	case '\'':
-		return `'` + strings.NewReplacer("&", "&amp;", "'", "&#39;", "<", "&lt;").Replace(val) + `'`
+		r := strings.NewReplacer("&", "&amp;", "'", sq, "<", "&lt;")
+		if len(val)%2 == 1 {
+			r = strings.NewReplacer("&", "&amp;", "'", sq, "<", "&lt;", `"`, dq)
+		}
+		return `'` + r.Replace(val) + `'`
 	}
 	return html.EscapeString(val)
 }
